@@ -31,7 +31,8 @@ RSqrt(v) == IF Geq(v, One) THEN RSqrtBig(v)                                   \*
             ELSE IF Geq(Shl2(v), One) THEN MulSmall(RSqrtBig(Shl2(v)), 10000)
             ELSE MulSmall(MulSmall(RSqrtBig(Shl2(Shl2(v))), 10000), 10000)
 \* sqrt: z0 = v r, then one Newton correction z0 + r (v - z0^2)/2 (restores the absolute resolution for large v)
-SqrtWith(v, r) == LET z0 == Mul(v, r) IN Add(z0, Half(Mul(r, Sub(v, Sq(z0)))))
+SqrtCorr(v, r, z0) == Add(z0, Half(Mul(r, Sub(v, Sq(z0)))))
+SqrtWith(v, r) == SqrtCorr(v, r, Mul(v, r))
 Sqrt(v) == IF IsZero(v) THEN Zero ELSE SqrtWith(v, RSqrt(v))
 \* 1/d for 1 <= d <= 2.5  (start 1/2: |1 - d/2| <= 1/2, squared at every step)
 Recip12(d) == RecipIt(d, Half(One), 8)
@@ -80,6 +81,7 @@ RotM(p) == RotSC(SinOf(p[1]), CosOf(p[1]), SinOf(p[2]), CosOf(p[2]))
 \* unit normal of the ellipsoid at geodetic latitude/longitude (independent of the ellipsoid's size and flattening)
 NormalSC(sp, cp, sl, cl) == <<Mul(cp, cl), Mul(cp, sl), sp>>
 
+Other(f) == IF f = "cart" THEN "local" ELSE "cart"
 \* the public calls, given the rotation matrix R of the station
 Post_Enu2Xyz(R, v) == MatVec(R, v)
 Post_Xyz2Enu(R, v) == MatVec(Transp(R), v)
@@ -120,7 +122,7 @@ KAbstract(arg) == IF ~arg.int THEN [kind |-> "TypeError", i |-> 0]
                   ELSE IF arg.v > KMax THEN [kind |-> "normal", i |-> 0]      \* 1.96
                   ELSE [kind |-> "entry", i |-> arg.v]
 K196 == Dec(19600, 1)
-Delta5 == Dec(5000, 2)                      \* 0.5e-5: "to five decimals"
+Delta5 == Dec(500, 2)                       \* 0.5e-5: "to five decimals"
 P95 == Dec(9500, 1)
 PEps == Dec(10, 4)                          \* 1e-15: guard for the truncation of ~400 BigFix operations (each < 1e-19)
 
@@ -140,26 +142,25 @@ SerOdd(x, term, j, n) ==
 RECURSIVE AtanSer(_, _, _, _)
 AtanSer(u2, pw, k, n) == \* SUM_{i=k}^{n} (-1)^i pw_i/(2i+1), pw_i = u^(2i+1)
   IF k > n THEN Zero
-  ELSE LET t == DivSmall(pw, 2 * k + 1)
-       IN Add(IF k % 2 = 0 THEN t ELSE Neg(t), AtanSer(u2, Mul(pw, u2), k + 1, n))
+  ELSE Add(IF k % 2 = 0 THEN DivSmall(pw, 2 * k + 1) ELSE Neg(DivSmall(pw, 2 * k + 1)), AtanSer(u2, Mul(pw, u2), k + 1, n))
 AtanLo(u) == AtanSer(Sq(u), u, 0, 27)       \* ends with a negative term: below the limit
 AtanHi(u) == AtanSer(Sq(u), u, 0, 28)       \* ends with a positive term: above the limit
 \* theta from sin and cos (0 < th < pi/2): tan(th/2) = s/(1+c), tan(th/4) = u/(1+sqrt(1+u^2)), th = 4 atan(tan(th/4))
-QuarterTan(s, c) == LET u == Mul(s, Recip12(Add(One, c)))
-                    IN Mul(u, Recip12(Add(One, Sqrt(Add(One, Sq(u))))))
-\* returns <<lo, hi>> with lo <= A(t|nu) <= hi up to PEps
-Coverage(nu, t) ==
-  LET r  == RSqrt(Add(FromInt(nu), Sq(t)))
-      s  == Mul(t, r)
-      x  == MulSmall(Sq(r), nu)
-  IN IF nu % 2 = 0
-     THEN LET a == Mul(s, SerEven(x, One, 0, nu \div 2 - 1)) IN <<a, a>>
-     ELSE LET c  == Sqrt(x)
-              q  == QuarterTan(s, c)
-              g  == IF nu = 1 THEN Zero ELSE Mul(Mul(s, c), SerOdd(x, One, 0, (nu - 3) \div 2))
-              lo == MulSmall(Add(MulSmall(AtanLo(q), 4), g), 2)      \* pi * A  from below
-              hi == MulSmall(Add(MulSmall(AtanHi(q), 4), g), 2)
-          IN <<Mul(lo, RecipIt(PiHi, Dec(3000, 1), 8)), Mul(hi, RecipIt(PiLo, Dec(3000, 1), 8))>>
+QuarterTan1(u) == Mul(u, Recip12(Add(One, Sqrt(Add(One, Sq(u))))))
+QuarterTan(s, c) == QuarterTan1(Mul(s, Recip12(Add(One, c))))
+\* returns <<lo, hi>> with lo <= A(t|nu) <= hi up to PEps.  (Heavy intermediate values are operator
+\* arguments, which TLC evaluates once, not LET definitions, which it re-evaluates at every use.)
+CovEven(nu, s, x) == Mul(s, SerEven(x, One, 0, nu \div 2 - 1))
+PiTimesA(at, g) == MulSmall(Add(MulSmall(at, 4), g), 2)                \* 2 (theta + g),  theta = 4 atan(tan(theta/4))
+InvPiHi == RecipIt(PiHi, Dec(3000, 1), 8)      \* 1/pi from below and from above (up to 1e-19)
+InvPiLo == RecipIt(PiLo, Dec(3000, 1), 8)
+CovOdd3(q, g) == <<Mul(PiTimesA(AtanLo(q), g), InvPiHi), Mul(PiTimesA(AtanHi(q), g), InvPiLo)>>
+CovOdd2(nu, s, x, c) == CovOdd3(QuarterTan(s, c), IF nu = 1 THEN Zero ELSE Mul(Mul(s, c), SerOdd(x, One, 0, (nu - 3) \div 2)))
+CovOdd(nu, s, x) == CovOdd2(nu, s, x, Sqrt(x))
+Pair(a) == <<a, a>>
+Cov1(nu, s, x) == IF nu % 2 = 0 THEN Pair(CovEven(nu, s, x)) ELSE CovOdd(nu, s, x)
+Cov0(nu, t, r) == Cov1(nu, Mul(t, r), MulSmall(Sq(r), nu))           \* sin = t r, cos^2 = nu r^2
+Coverage(nu, t) == Cov0(nu, t, RSqrt(Add(FromInt(nu), Sq(t))))        \* r = 1/sqrt(nu + t^2)
 \* q is the two-sided 95 % Student-t quantile of nu degrees of freedom rounded to five decimals:
 \*   A(q - 0.5e-5) <= 0.95 <= A(q + 0.5e-5)     (refuted only when definitely false)
 QuantileOK(nu, q) == /\ Leq(Coverage(nu, Sub(q, Delta5))[1], Add(P95, PEps))
